@@ -50,7 +50,7 @@ pub fn run_case(ast: &[Rule], vm: &pest_vm::Vm, rule: &str, input: &str, plus: P
 pub fn run(args: &Args) {
     let mut rep = Report::new(args);
     let mut rng = Rng::new(args.seed, "c01", args.shard);
-    let n_grammars = args.budget(60_000, 3_000_000);
+    let n_grammars = args.budget(60_000, 1_500_000);
     let mut cfg = GenCfg::new(Profile::Full);
     cfg.nonatomic_skip_rules = true;
     cfg.wild_left_refs_pct = 3;
@@ -58,6 +58,28 @@ pub fn run(args: &Args) {
         replay(args, &mut rep, path);
         rep.finish(args);
         return;
+    }
+    // the repository's own grammar files (test grammars, bundled grammars, the meta-grammar) as a realistic family
+    let files = vmon::textgen::corpus(args.opt("corpus").unwrap_or("/repo"));
+    for (fi, (name, text)) in files.iter().enumerate() {
+        if fi as u64 % args.nshards != args.shard || name.contains("fuzzsample") {
+            continue;
+        }
+        let Ok((ast, optimized)) = read_grammar(text) else { continue };
+        if lister_touches(&ast) {
+            rep.count("corpus_grammars_set_aside_lister");
+            continue;
+        }
+        rep.count("corpus_grammars_used");
+        let vm = pest_vm::Vm::new(optimized);
+        let mut grng = rng.fork();
+        let (inputs, _, _) = vmon::inputs::inputs_for(&ast, &mut grng, if args.thorough { 400 } else { 60 }, 3, 60);
+        for r in ast.iter().take(80) {
+            for input in &inputs {
+                rep.journal(|| json!({"grammar": text, "rule": r.name, "input": input}));
+                check_case(&mut rep, text, &ast, &vm, &r.name, input);
+            }
+        }
     }
     for gi in 0..n_grammars {
         if rep.elapsed() > args.max_s {
@@ -85,7 +107,7 @@ pub fn run(args: &Args) {
         }
         rep.count("grammars_used");
         let vm = pest_vm::Vm::new(optimized);
-        let (inputs, l, _) = vmon::inputs::inputs_for(&ast, &mut grng, 12, 2, if args.thorough { 400 } else { 160 });
+        let (inputs, l, _) = vmon::inputs::inputs_for(&ast, &mut grng, 12, 2, if args.thorough { 1000 } else { 160 });
         rep.add("exhaustive_len_sum", l as u64);
         for r in &ast {
             for input in &inputs {
